@@ -90,18 +90,23 @@ class _Guard:
         self.calls = 0
         self.tripped = False
         self.base = sys.getrecursionlimit()
+        self.limit = self.base
 
     def tick(self):
         self.calls += 1
         if self.calls > self.CALL_BUDGET:
             self.tripped = True
-            d, f = 0, sys._getframe()
-            while f is not None:
-                d, f = d + 1, f.f_back
-            sys.setrecursionlimit(d + 12)
+            try:                      # the interpreter's own depth count is only available in this message
+                sys.setrecursionlimit(1)
+            except RecursionError as e:
+                m = re.search(r"recursion depth (\d+)", str(e))
+                if m:     # only ever lower it: a nested call must not win new depth by ticking again
+                    self.limit = min(self.limit, int(m.group(1)) + 10)
+                    sys.setrecursionlimit(max(self.limit, int(m.group(1)) + 3))
 
     def reset(self):
         self.calls = 0
+        self.limit = self.base
         if self.tripped:
             sys.setrecursionlimit(self.base)
 
